@@ -7,7 +7,7 @@ if ! git apply "$patch" 2>/tmp/seedtest.err; then
   if ! git apply --3way "$patch" 2>>/tmp/seedtest.err; then echo "PATCH DOES NOT APPLY"; head -5 /tmp/seedtest.err; git reset -q; git checkout -- . ; exit 3; fi
   git reset -q
 fi
-cd /verif && ./check "$prop" --tier "$tier" 2>&1 | grep -E "VIOLATION|KNOWN-FINDING|MACHINERY|: ok;|violating" | cut -c1-300 | head -12
+cd /verif && ./check "$prop" --tier "$tier" 2>&1 | grep -E "VIOLATION|DETAIL|KNOWN-FINDING|MACHINERY|: ok;|violating" | cut -c1-300 | head -24
 rc=${PIPESTATUS[0]}
 git -C /repo checkout -- .
 echo "exit=$rc"
